@@ -122,6 +122,8 @@ class ColumnMatcher(ConstantScoreMatcher):
         return False
 
     def skip_to_quality(self, minquality):
+        # Returns the number of "blocks" skipped, like every other matcher
         if self._score <= minquality:
             self._i = len(self.creader)
-            return True
+            return 1
+        return 0
